@@ -173,7 +173,7 @@ func init() {
 	props["C08"] = &propDef{Level: "exploration", Rule: ruleExpl + "a promotion callback ran", Assume: base,
 		Plan: func(t string) []PlanItem { return append(generalPlan(t, true), finePlan("C08", t)...) }}
 	props["C09"] = &propDef{Level: "exploration", Rule: ruleExpl + "a stop call returned", Assume: base,
-		Plan: func(t string) []PlanItem { return append(generalPlan(t, false), finePlan("C09", t)...) }}
+		Plan: func(t string) []PlanItem { return append(append(generalPlan(t, false), connStopPlan(t)...), finePlan("C09", t)...) }}
 	props["C18"] = &propDef{Level: "exploration", Rule: ruleExpl + "a Status() snapshot was taken", Assume: base,
 		Plan: func(t string) []PlanItem { return append(generalPlan(t, true), finePlan("C18", t)...) }}
 	props["C19"] = &propDef{Level: "exploration", Rule: ruleExpl + "a promotion callback received a context", Assume: base,
@@ -347,4 +347,19 @@ func healthLate(s *Scenario) *Scenario {
 		s.Insts[i].Health = []string{"late"}
 	}
 	return s
+}
+
+// connStopPlan: a monitored instance receives reconnect / disconnect+reconnect
+// notifications and is stopped; the explorer moves the stop call to every choice point,
+// in particular between the reads of the reconnect verification (C09: nothing is issued
+// after the stop call has returned).
+func connStopPlan(tier string) []PlanItem {
+	g2 := 2*200*ms + 7*ms + 13*us
+	var items []PlanItem
+	for _, seq := range [][]string{{"reconnect"}, {"disconnect", "reconnect"}} {
+		for _, st := range []string{"stop", "stopctx"} {
+			items = append(items, PlanItem{scnConn(seq, g2, "none", false, st), 1})
+		}
+	}
+	return items
 }
